@@ -10,6 +10,19 @@ mod tests;
 use ff::Field;
 use CurveProjective;
 
+#[cfg(pairing_plus_verif)]
+pub mod verif {
+    use bls12_381::{Fq, Fq2};
+    /// [XNUM, XDEN, YNUM, YDEN] of the 11-isogeny E1' -> E1 (low degree first)
+    pub fn g1_iso_tables() -> [&'static [Fq]; 4] {
+        super::g1::verif_tables()
+    }
+    /// [XNUM, XDEN, YNUM, YDEN] of the 3-isogeny E2' -> E2 (low degree first)
+    pub fn g2_iso_tables() -> [&'static [Fq2]; 4] {
+        super::g2::verif_tables()
+    }
+}
+
 /// Alias for the coordinate type corresponding to a CurveProjective type
 type CoordT<PtT> = <PtT as CurveProjective>::Base;
 
